@@ -150,7 +150,7 @@ func TestVerifC20(t *testing.T) {
 	storeCtx := ctx
 	if seed%2 == 0 {
 		var storeCancel context.CancelFunc
-		storeCtx, storeCancel = context.WithTimeout(ctx, duration-700*time.Millisecond)
+		storeCtx, storeCancel = context.WithTimeout(ctx, duration-1000*time.Millisecond)
 		defer storeCancel()
 	}
 	for pi, page := range pages {
@@ -183,6 +183,12 @@ func TestVerifC20(t *testing.T) {
 		time.Sleep(20 * time.Millisecond)
 	})
 	run("snapshot", func(rng *rand.Rand) {
+		// (a snapshot whose Persist is still running when Restore closes the log copy it reads
+		// takes the node down as well: same class as the pages above)
+		if storeCtx.Err() != nil {
+			time.Sleep(5 * time.Millisecond)
+			return
+		}
 		ov.do("snapshot", func() { c.private("GET", "/snapshot", n.password, nil, nil) })
 		time.Sleep(40 * time.Millisecond)
 	})
@@ -291,7 +297,7 @@ func TestVerifC20(t *testing.T) {
 			select {
 			case <-ctx.Done():
 				return
-			case <-time.After(duration - 400*time.Millisecond):
+			case <-time.After(duration - 700*time.Millisecond):
 			}
 			snaps, err := n.fss.List()
 			if err != nil || len(snaps) == 0 {
@@ -330,11 +336,24 @@ func TestVerifC20(t *testing.T) {
 			atomic.StoreInt32(&api.VerifStall, 1)
 			ov.do("restore", func() { n.raft.Restore(meta, rc, 10*time.Second) })
 			atomic.StoreInt32(&api.VerifStall, 0)
+			rc.Close()
+			rep.Obs("restore-survived", 1)
+			// a node may receive several snapshots in a row
+			for again := 0; again < 2 && ctx.Err() == nil; again++ {
+				time.Sleep(60 * time.Millisecond)
+				meta2, rc2, err := n.fss.Open(snaps[0].ID)
+				if err != nil {
+					break
+				}
+				atomic.StoreInt32(&api.VerifStall, 1)
+				ov.do("restore", func() { n.raft.Restore(meta2, rc2, 10*time.Second) })
+				atomic.StoreInt32(&api.VerifStall, 0)
+				rc2.Close()
+				rep.Obs("restore-survived", 1)
+			}
 			calls, stalled := api.VerifYields()
 			rep.Obs("accessor-yield-points-passed", int(calls))
 			rep.Obs("accessor-calls-stalled-during-restore", int(stalled))
-			rc.Close()
-			rep.Obs("restore-survived", 1)
 		}()
 	}
 	finished := make(chan struct{})
